@@ -22,8 +22,10 @@ LEVEL = "exploration"
 RULE = (
     "enumerate every depth-first-ordered point tree with <=6 (quick) / <=8 (thorough) points (Catalan(n-1) trees "
     "with n points, including the file that is one soma point) x soma form "
-    "{single point, 3-point chain 1-2-3 with neurites on any soma point} x 4 neurite type patterns over {2,3,4} "
-    "(uniform; by subtree at the soma; change with depth inside a neurite; both) with fixed generic coordinates "
+    "{single point, 3-point chain 1-2-3 with neurites on any soma point, 3-point chain along the last children so that neurites on inner "
+    "soma points are listed before the soma continues} x 5 neurite type patterns over {2,3,4} "
+    "(uniform; by subtree at the soma; change with depth inside a neurite; both; first listed child of every branch point differs while later "
+    "children continue the parent's type) with fixed generic coordinates "
     "and radii (functions of the point index and the number of points only), dedupe identical files; read each file with the real "
     "jaxley.read_swc for ncomp {1,2,3} x max_branch_len {None, 18 um} x min_radius {None, 0.5 um} and compare "
     "branch count, parent relation, branch lengths, SWC-type groups and radii at compartment centres with the "
@@ -94,7 +96,7 @@ HYPOTHESES = [
     ("first_neurite_type_from_last_row", {"stale_first_neurite_type": True}),
     ("no_own_radius_at_root_junction", {"root_junction_keeps_root_radius": True}),
 ]
-PATTERNS = ["uniform", "by_subtree", "by_depth", "by_subtree_and_depth"]
+PATTERNS = ["uniform", "by_subtree", "by_depth", "by_subtree_and_depth", "first_child_differs"]
 
 
 # --------------------------------------------------------------------------- enumeration
@@ -115,33 +117,53 @@ def dfs_trees(n):
     return out
 
 
+def last_path(parents, k):
+    """The k points on the path that starts at the root and always continues with the LAST child (in file order), or None."""
+    n = len(parents)
+    path = [1]
+    while len(path) < k:
+        ch = [i + 1 for i, p in enumerate(parents) if p == path[-1]]
+        if not ch:
+            return None
+        path.append(ch[-1])
+    return path
+
+
 def make_swc(parents, soma_pts, pattern):
-    """SWC text of the tree; a pure function of its arguments."""
+    """SWC text of the tree; a pure function of its arguments.  `soma_pts` is the number of soma points (they are then the first
+    points of the file) or an explicit list of soma point ids (a chain from the root; neurites attached to an inner soma point may then
+    be listed BEFORE the soma continues)."""
     n = len(parents)
     kids = {i: [] for i in range(1, n + 1)}
     for i, p in enumerate(parents):
         if p > 0:
             kids[p].append(i + 1)
     types = [0] * (n + 1)
-    for i in range(1, soma_pts + 1):
+    soma_ids = list(range(1, soma_pts + 1)) if isinstance(soma_pts, int) else list(soma_pts)
+    soma_rank = {i: k for k, i in enumerate(soma_ids)}
+    for i in soma_ids:
         types[i] = 1
     sub = 0
 
-    def assign(i, k, d):
+    def assign(i, k, d, inherited=None):
         base = (3, 4, 2)[k % 3] if pattern in ("by_subtree", "by_subtree_and_depth") else 3
         nxt = {3: 4, 4: 2, 2: 3}[base]
         if pattern == "by_depth":
             t = base if d <= 2 else nxt
         elif pattern == "by_subtree_and_depth":
             t = base if d <= 1 else nxt
+        elif pattern == "first_child_differs":
+            t = inherited if inherited is not None else base
         else:
             t = base
         types[i] = t
-        for c in kids[i]:
-            assign(c, k, d + 1)
+        for j, c in enumerate(kids[i]):
+            # at a branch point the FIRST listed child starts another type, the later ones continue the parent's type
+            inh = ({3: 4, 4: 2, 2: 3}[t] if (j == 0 and len(kids[i]) >= 2) else t) if pattern == "first_child_differs" else None
+            assign(c, k, d + 1, inh)
 
     # neurite subtrees in file order of their first point
-    starts = sorted(c for i in range(1, soma_pts + 1) for c in kids[i] if c > soma_pts)
+    starts = sorted(c for i in soma_ids for c in kids[i] if c not in soma_rank)
     for k, c in enumerate(starts):
         assign(c, k, 1)
     pos = {1: (0.0, 0.0, 0.0)}
@@ -153,9 +175,9 @@ def make_swc(parents, soma_pts, pattern):
             th = 2.399963229 * i
             s = math.sqrt(1 - z * z)
             d = (s * math.cos(th), s * math.sin(th), z)
-            L = SOMA_LEN[i - 1] if i <= soma_pts else LEN[(i + n) % len(LEN)]
+            L = SOMA_LEN[soma_rank[i]] if i in soma_rank else LEN[(i + n) % len(LEN)]
             pos[i] = tuple(a + L * b for a, b in zip(pos[p], d))
-        r = SOMA_RAD[i - 1] if i <= soma_pts else RAD[(i + 2 * n) % len(RAD)]
+        r = SOMA_RAD[soma_rank[i]] if i in soma_rank else RAD[(i + 2 * n) % len(RAD)]
         x, y, zz = pos[i]
         lines.append(f"{i} {types[i]} {x:.4f} {y:.4f} {zz:.4f} {r:.4f} {p}")
     return "\n".join(lines) + "\n"
@@ -175,6 +197,14 @@ def files_of_tier(tier):
                         continue
                     seen.add(text)
                     out.append({"swc": text, "parents": parents, "soma_pts": soma_pts, "pattern": pat})
+            # 3-point soma chain along the LAST children: neurites on the first two soma points precede the soma's continuation
+            lp = last_path(parents, 3)
+            if lp is not None and lp != [1, 2, 3] and n >= 4:
+                for pat in PATTERNS:
+                    text = make_swc(parents, lp, pat)
+                    if text not in seen:
+                        seen.add(text)
+                        out.append({"swc": text, "parents": parents, "soma_pts": 3, "pattern": pat, "soma_ids": lp})
     return out
 
 
